@@ -44,14 +44,19 @@ def crash_workloads(rng, num, tomblog):
     ws = []
     for _ in range(num):
         ops = []
-        for _round in range(rng.randint(1, 3)):
+        for _round in range(rng.randint(2, 4)):
             ops.append({"a": "gate_on"})
-            for _ in range(rng.randint(1, 5)):
-                k = rng.choice(KEYS)
-                if rng.random() < 0.25:
-                    ops.append({"a": "rem", "k": k})
-                else:
-                    ops.append({"a": "ins", "k": k})
+            # burst: the submissions of the round and the wait request reach the flusher in one go (no
+            # background task runs in between, as in `delete(k); wait().await` on one task)
+            burst = rng.random() < 0.5
+            if _round > 0 and rng.random() < 0.3:
+                # a round that only deletes (the acknowledgement then rests on the tombstone log write alone)
+                for k in rng.sample(KEYS, rng.randint(1, 2)):
+                    ops.append({"a": "rem", "k": k, "noturn": burst})
+            else:
+                for _ in range(rng.randint(1, 5)):
+                    k = rng.choice(KEYS)
+                    ops.append({"a": "rem" if rng.random() < 0.25 else "ins", "k": k, "noturn": burst})
             ops.append({"a": "drain", "probes": True, "tears": True})
             ops.append({"a": "wait"})
             ops.append({"a": "probe"})
@@ -84,6 +89,23 @@ def layout_workloads(rng, num, big):
     return ws
 
 
+def full_index_workloads(rng, num):
+    """blocks of more than two full blob indexes (170 entries each): batches that end exactly when the index of
+    the first / second / third blob of a block is full, followed by further batches into the same block"""
+    pats = [[170, 170, 10, 5], [100, 70, 170, 20], [170, 340, 7], [169, 1, 169, 1, 3], [340, 170, 2, 170], [170, 171, 169, 9]]
+    ws = []
+    for i in range(num):
+        ops = []
+        for n in pats[i % len(pats)] if i < len(pats) else [rng.choice([1, 169, 170, 171, 340]) for _ in range(4)]:
+            ops.append({"a": "hold"})
+            for _ in range(n):
+                ops.append({"a": "ins", "k": rng.choice(KEYS)})
+            ops += [{"a": "unhold"}, {"a": "wait"}, {"a": "q"}]
+        ops += [{"a": "reopen"}, {"a": "q"}]
+        ws.append({"ops": ops})
+    return ws
+
+
 def fault_workloads(rng, num, all_faults):
     """a small image with overwrites, deletes and a multi-batch blob; a snapshot in the middle provides the
     older generation of every page; then every fault class on every used page"""
@@ -101,21 +123,85 @@ def fault_workloads(rng, num, all_faults):
     return ws
 
 
-def run_profile(pid, d, name, blocks, bp, pad, tomblog, ws, invariant, compression=""):
+def reclaim_workloads(rng, num, inserts, with_q_every, big=()):
+    """sustained inserts of several device capacities (no deletes), acknowledged and looked up regularly; with
+    `big`, batches that span several blocks are submitted at once on the full device (several clean-block
+    requests parked together) while reads and writes of the device complete in a chosen order (the reclaimer
+    reads the block it reclaims: "wf" = reads are slower than writes, "rf" = faster, "rand")"""
+    ws = []
+    for j in range(num):
+        ops = []
+        for i in range(inserts):
+            ops.append({"a": "ins", "k": rng.choice(KEYS)})
+            if (i + 1) % with_q_every == 0:
+                ops += [{"a": "wait"}, {"a": "q"}]
+            if big and (i + 1) % (3 * with_q_every) == 0:
+                ops += [{"a": "wait"}, {"a": "hold"}]
+                ops += [{"a": "ins", "k": rng.choice(KEYS)} for _ in range(rng.choice(big))]
+                ops += [{"a": "gate_rw"}, {"a": "unhold"},
+                        {"a": "drain_sched", "order": ["wf", "rf", "rand"][(j + i) % 3], "seed": rng.randint(1, 10**6)},
+                        {"a": "wait"}, {"a": "q"}]
+        ops += [{"a": "wait"}, {"a": "q"}]
+        ws.append({"ops": ops})
+    return ws
+
+
+def mc_reclaim(d, tier):
+    core.copy_specs(d, {"Reclaim", "MC_Reclaim"})
+    cfgs = [dict(blocks=3, fl=1, rc=1, keys=[1, 2], cap=2, reins=[1], w=6, r=3),
+            dict(blocks=4, fl=2, rc=2, keys=[1], cap=1, reins=[], w=5, r=3)]
+    if tier == "thorough":
+        cfgs += [dict(blocks=4, fl=1, rc=1, keys=[1, 2], cap=2, reins=[1], w=8, r=4),
+                 dict(blocks=4, fl=2, rc=1, keys=[1, 2], cap=1, reins=[2], w=6, r=3)]
+    out = []
+    for i, c in enumerate(cfgs):
+        name = f"RC_{i}.cfg"
+        with open(os.path.join(d, name), "w") as f:
+            f.write("\n".join(["SPECIFICATION Spec", "CONSTANTS", f"  Blocks = {core.tla_value(set(range(c['blocks'])))}",
+                               f"  Flushers = {core.tla_value(set(range(1, c['fl'] + 1)))}", f"  Reclaimers = {c['rc']}",
+                               "  Threshold = 1", f"  Keys = {core.tla_value(set(c['keys']))}", f"  BlockCap = {c['cap']}",
+                               f"  Reinsert = {core.tla_value(set(c['reins']))}", f"  MaxWrites = {c['w']}",
+                               f"  MaxReclaims = {c['r']}", "CONSTRAINT Bound", "INVARIANT Inv", "CHECK_DEADLOCK FALSE"]) + "\n")
+        r = core.run_tlc(d, "MC_Reclaim", name, workers=6, timeout=1500)
+        core.tlc_must_pass(r, f"MC_Reclaim[{c}]")
+        out.append({"profile": f"MC_Reclaim blocks={c['blocks']} flushers={c['fl']} reclaimers={c['rc']}", "kind": "edge",
+                    "algo": "-", "states": r["distinct"], "transitions": r["generated"], "scripts": 0, "matched": 0,
+                    "mismatched": 0, "roots": 0, "panics": 0, "nontrivial": 0, "by_field": {}})
+    return out
+
+
+def run_profile(pid, d, name, blocks, bp, pad, tomblog, ws, invariant, compression="", extra=None, fifo=False,
+                reinsert_keys=()):
     os.makedirs(d, exist_ok=True)
+    job = dict(blocks=blocks, bp=bp, pad=pad, tomblog=tomblog, compression=compression, extra=extra, fifo=fifo,
+               reinsert_keys=list(reinsert_keys))
     p = dict(algo="fifo", shards=1, hash=HASH, cfg=dict(mem.DEFAULT_CFG))
     cfg = mem.harness_cfg(d, p)
     hpath = os.path.join(d, "hcfg.json")
     with open(hpath, "w") as f:
-        json.dump({"policy": "woi", "flush_on_close": True, "tomblog": tomblog, "memcap": 2,
-                   "keyloc": {}, "blocks": blocks, "block_pages": bp, "pad": pad, "compression": compression}, f)
+        hc = {"policy": "woi", "flush_on_close": True, "tomblog": tomblog, "memcap": 2,
+              "keyloc": {}, "blocks": blocks, "block_pages": bp, "pad": pad, "compression": compression}
+        hc.update(extra or {})
+        json.dump(hc, f)
     wpath = os.path.join(d, "workloads.txt")
     with open(wpath, "w") as f:
         for w in ws:
             f.write(json.dumps(w) + "\n")
     trace = os.path.join(d, "trace.ndjson")
-    info = json.loads(core.run_harness(["disk-run", "--cfg", cfg, "--hcfg", hpath, "--scripts", wpath, "--trace", trace],
-                                       timeout=3000).strip().splitlines()[-1])
+    try:
+        info = json.loads(core.run_harness(["disk-run", "--cfg", cfg, "--hcfg", hpath, "--scripts", wpath, "--trace", trace],
+                                           timeout=3000).strip().splitlines()[-1])
+    except core.ToolError as e:
+        if pid == "C09" and "did not return" in str(e):
+            # wait() / close() never returned although the device gate is open: writers stalled
+            import re
+            m = re.search(r"script (\d+):", str(e))
+            stalled = ws[int(m.group(1))] if m else ws[0]
+            return ({"profile": name, "kind": "rand", "algo": "-", "scripts": 0, "matched": 0, "mismatched": 0, "roots": 0,
+                     "panics": 0, "nontrivial": 0, "by_field": {"stall": 1}},
+                    [{"kind": "stall", "bad": "writers_stalled_wait_did_not_return", "profile": name, "ops": stalled["ops"],
+                      "observed": str(e)[-300:], "op": {"name": "wait"}, "job": job}], {"profile": name})
+        raise
     core.copy_specs(d, {"DiskImage", "Trace_DiskImage"})
     root = "DItrace"
     with open(os.path.join(d, root + ".tla"), "w") as f:
@@ -132,6 +218,7 @@ def run_profile(pid, d, name, blocks, bp, pad, tomblog, ws, invariant, compressi
             f.write("\n".join(["SPECIFICATION TraceSpec", "CONSTANTS", f"  Blocks = {core.tla_value(set(range(blocks)))}",
                                f"  BP = {bp}", "  IndexCap = 170", f"  Keys = {core.tla_value(set(KEYS))}",
                                "  Hash <- c_Hash", f"  TombLogOn = {core.tla_value(tomblog)}",
+                               f"  FifoOrder = {core.tla_value(fifo)}", f"  ReinsertKeys = {core.tla_value(set(reinsert_keys))}",
                                f"INVARIANT {inv}", "POSTCONDITION Consumed", "CHECK_DEADLOCK FALSE"]) + "\n")
         todo = list(pending)
         rounds = 0
@@ -158,7 +245,7 @@ def run_profile(pid, d, name, blocks, bp, pad, tomblog, ws, invariant, compressi
                     else:
                         violations.append({"kind": "predicate", "bad": core.last_var(r["out"], "bad"), "profile": name,
                                            "ops": ws[evs[0]["script"]]["ops"], "observed": evs[line_no - acc - 1],
-                                           "op": {"name": evs[line_no - acc - 1]["a"]}})
+                                           "op": {"name": evs[line_no - acc - 1]["a"]}, "job": job})
                     todo = todo[i + 1:]
                     break
                 acc += len(s)
@@ -193,19 +280,43 @@ def check(pid, tier):
         jobs.append(("faults-tomb1-zstd", 4, 8, 300, True, fault_workloads(rng, n, th), "NoViolation_C03", "zstd"))
         jobs.append(("faults-tomb0-lz4", 4, 8, 300, False, fault_workloads(rng, n, th), "NoViolation_C03", "lz4"))
     elif pid == "C04":
-        n = 40 if th else 8
+        n = 40 if th else 14
         for tomblog in (True, False):
             for pad in (0, 5000):
                 jobs.append((f"crash-tomb{int(tomblog)}-pad{pad}", 16, 16, pad, tomblog, crash_workloads(rng, n, tomblog),
                              "NoViolation_C04"))
-    else:
+    elif pid == "C07":
         n = 30 if th else 6
         jobs.append(("layout-16p-pad0", 16, 16, 0, True, layout_workloads(rng, n, False), "NoViolation_C07"))
         jobs.append(("layout-16p-pad5000", 16, 16, 5000, False, layout_workloads(rng, n, False), "NoViolation_C07"))
         jobs.append(("layout-16p-pad9000", 16, 16, 9000, False, layout_workloads(rng, n, False), "NoViolation_C07"))
         jobs.append(("layout-256p-indexcap", 6, 256, 0, False, layout_workloads(rng, max(4, n // 3), True), "NoViolation_C07"))
+        # entries of exactly one / two pages (serialized length a multiple of the page size)
+        jobs.append(("layout-256p-exact1page", 6, 256, 4032, False, layout_workloads(rng, max(3, n // 4), True), "NoViolation_C07"))
+        jobs.append(("layout-16p-exact2pages", 16, 16, 8128, False, layout_workloads(rng, n, False), "NoViolation_C07"))
+        jobs.append(("layout-600p-fullindex", 4, 600, 0, False, full_index_workloads(rng, 6 if th else 3), "NoViolation_C07"))
+    if pid == "C09":
+        n = 6 if th else 2
+        # 8 blocks of 4 pages: 3 one-page entries per block, 24 per device capacity
+        jobs.append(("reclaim-1flusher-fifo", 8, 4, 0, False, reclaim_workloads(rng, n, 24 * (6 if th else 4), 10),
+                     "NoViolation_C09", "", {"flushers": 1, "reclaimers": 1, "clean_threshold": 1}, True, ()))
+        jobs.append(("reclaim-2flushers-2reclaimers", 8, 4, 0, False, reclaim_workloads(rng, n, 24 * (6 if th else 3), 7),
+                     "NoViolation_C09", "", {"flushers": 2, "reclaimers": 2, "clean_threshold": 2}, False, ()))
+        jobs.append(("reclaim-reinsertion", 8, 4, 0, False, reclaim_workloads(rng, n, 24 * 3, 5),
+                     "NoViolation_C09", "", {"flushers": 1, "reclaimers": 1, "clean_threshold": 1, "reinsert": [HASH[1]]},
+                     True, (1,)))
+        jobs.append(("reclaim-bigbatch-sched", 8, 4, 0, False,
+                     reclaim_workloads(rng, 6 if th else 3, 24 * 3, 8, big=(9, 12, 15)),
+                     "NoViolation_C09", "", {"flushers": 1, "reclaimers": 1, "clean_threshold": 1}, False, ()))
+        jobs.append(("reclaim-bigbatch-2flushers", 8, 4, 0, False,
+                     reclaim_workloads(rng, 6 if th else 3, 24 * 3, 8, big=(9, 12, 15)),
+                     "NoViolation_C09", "", {"flushers": 2, "reclaimers": 1, "clean_threshold": 1}, False, ()))
+        jobs.append(("reclaim-2page-entries", 6, 8, 5000, False, reclaim_workloads(rng, n, 18 * 4, 6),
+                     "NoViolation_C09", "", {"flushers": 1, "reclaimers": 2, "clean_threshold": 2}, True, ()))
     with cf.ThreadPoolExecutor(max_workers=4) as ex:
-        mcs = mc_configs(tier)
+        if pid == "C09":
+            results += mc_reclaim(base, tier)
+        mcs = mc_configs(tier) if pid != "C09" else []
         if pid == "C03":
             mcs = [dict(c, maxentries=min(c["maxentries"], 4), maxcrashes=0) for c in mcs[:2]]
         mcf = [ex.submit(mc, ic) for ic in enumerate(mcs)]
@@ -234,21 +345,14 @@ def check(pid, tier):
 
 
 def replay(pid, path):
-    import re
     core.build_harness()
     with open(path) as f:
         v = json.load(f)["violation"]
-    name = v["profile"]
-    if name.startswith("crash-"):
-        m = re.match(r"crash-tomb(\d)-pad(\d+)", name)
-        args = (16, 16, int(m.group(2)), m.group(1) == "1")
-    elif name == "layout-256p-indexcap":
-        args = (6, 256, 0, False)
-    else:
-        m = re.match(r"layout-16p-pad(\d+)", name)
-        args = (16, 16, int(m.group(1)), name.endswith("pad0"))
+    j = v["job"]
     d = core.work_dir(f"{pid}-replay")
-    out, vs, _ = run_profile(pid, os.path.join(d, "r"), name, *args, [{"ops": v["ops"]}], f"NoViolation_{pid}")
+    out, vs, _ = run_profile(pid, os.path.join(d, "r"), v["profile"], j["blocks"], j["bp"], j["pad"], j["tomblog"],
+                             [{"ops": v["ops"]}], f"NoViolation_{pid}", j["compression"], j["extra"], j["fifo"],
+                             tuple(j["reinsert_keys"]))
     if vs:
         p = core.write_replay(pid, {"property": pid, "engine": "disk", "violation": vs[0]})
         print(f"VIOLATION property={pid} replay={p}")
